@@ -1870,6 +1870,13 @@ func (sc *serverConn) writeLoop() {
 
 func (sc *serverConn) handleSettings(st *Settings) {
 	st.applyTo(&sc.clientS)
+
+	// A frame that names the table size more than once has taken the client's
+	// decoder through the lowest of the values as well.
+	if st.seen&(1<<(HeaderTableSize-1)) != 0 && st.tableSizeLow < st.tableSize {
+		sc.enc.SetMaxTableSize(st.tableSizeLow)
+	}
+
 	sc.enc.SetMaxTableSize(sc.clientS.HeaderTableSize())
 
 	// The per-stream send windows are adjusted in handleStreams, where the
